@@ -307,12 +307,34 @@ def pred_tempo_enum(case, ctx):
     return True
 
 
+@st.composite
+def wa_case(draw):
+    n = draw(st.integers(1, 8))
+    return {"comp": draw(st.lists(st.sampled_from([-1.0, 0.0, 1.0]), min_size=n, max_size=n)),
+            "w": [draw(st.sampled_from([0.0, 0.0, 0.25, 1.0, 2.5])) for _ in range(n)]}
+
+
+def pred_weighted_accuracy(case, ctx):
+    c, w = np.array(case["comp"]), np.array(case["w"])
+    v = float(ctx.call(chord.weighted_accuracy, c, w))
+    comparable_weight = sum(x for x, y in zip(case["w"], case["comp"]) if y >= 0)
+    if math.isnan(v):
+        if comparable_weight == 0 and sum(case["w"]) > 0 and any(y >= 0 for y in case["comp"]):
+            ctx.known("c01.chord.weighted_accuracy:nan_when_comparable_weight_is_zero", repr(case))
+            return True
+        raise Violation("chord.weighted_accuracy(%r, %r) is NaN" % (case["comp"], case["w"]))
+    _unit("chord.weighted_accuracy", v)
+    return sum(case["w"]) > 0
+
+
 N = {"beat": (700, 20000), "onset": (500, 10000), "segment": (500, 12000), "chord": (400, 10000), "hierarchy": (250, 5000), "melody": (500, 12000),
      "multipitch": (400, 10000), "transcription": (500, 12000), "transcription_velocity": (400, 10000), "tempo": (400, 8000), "key": (300, 5000),
      "pattern": (500, 12000), "alignment": (400, 8000)}
 SUBPROPS = [SubProp(t, make_pred(t), strategy=R.STRATEGIES[t], n=N[t], shards=(2 if t in ("beat", "segment", "hierarchy") else 1, 8), floor=0.25,
                     rule="evaluate() and parameterised metric functions of mir_eval.%s; NT = at least one side non-empty" % t) for t in R.TASKS]
 SUBPROPS += [
+    SubProp("chord_weighted_accuracy", pred_weighted_accuracy, strategy=wa_case, n=(600, 8000), shards=(1, 2), floor=0.2,
+            rule="weighted_accuracy on comparison vectors over {-1,0,1} with non-negative weights incl. zeros; NT = some weight > 0"),
     SubProp("key_pairs_exhaustive", pred_keys, enum=enum_keys, shards=(2, 4), exhaustive=True, rule="every valid key string pair"),
     SubProp("tempo_hit_configurations", pred_tempo_enum, enum=enum_tempo, shards=(2, 4), exhaustive=True, rule="enumerated hit configurations"),
 ]
